@@ -120,13 +120,14 @@ PROPS = {
     },
     "C03": {
         "quick_runs": 60000, "thorough_runs": 1500000, "seed": 3000001, "chunk": 4096,
-        "rule": "C03 programs: one of 15 pipeline shapes without scheduler (then, let_value, let_error, when_all 2/3 arms, "
-                "when_all_vector, split with 1-3 consumers, ensure_started (also dropped), drop_value, split_tuple, drop_operation_state, "
-                "unique_any_sender, any_sender copies, unpack, when_all over split copies) or 8 shapes on a 1-4 worker runtime "
-                "(schedule, continues_on, transfer_just, when_all/split over scheduled work); every leaf draws its channel "
+        "rule": "C03 programs: one of 21 pipeline shapes without scheduler (then, let_value (also with a throwing callable), let_error (also "
+                "returning a leaf sender), when_all 2/3 arms and nested, when_all_vector, split with 1-3 consumers, ensure_started (also dropped), "
+                "split(ensure_started), ensure_started(split), drop_value, split_tuple, drop_operation_state, require_started, "
+                "unique_any_sender, any_sender copies, unpack, when_all over split copies) or 10 shapes on a 1-4 worker runtime "
+                "(schedule, continues_on, transfer_just, when_all/split/ensure_started over scheduled work); every leaf draws its channel "
                 "(value/error/stopped), its timing (inline in start / later from a completer thread) and payload; callables "
-                "throw at random; consumers start from 1-3 threads after drawn delays via connect/start or sync_wait.",
-        "required_probes": ["pure.shape6", "pure.shape7", "pure.shape9", "sched.shape1", "consumed_by_sync_wait", "split.consumers"],
+                "throw at random; consumers start from 1-3 threads after drawn delays via connect/start, sync_wait or start_detached.",
+        "required_probes": ["pure.shape6", "pure.shape7", "pure.shape9", "pure.shape15", "pure.shape18", "pure.shape20", "sched.shape1", "sched.shape8", "consumed_by_sync_wait", "consumed_by_start_detached", "split.consumers"],
     },
     "C04": {
         "quick_runs": 80000, "thorough_runs": 2000000, "seed": 4000001, "chunk": 4096,
